@@ -203,6 +203,12 @@ class HelpersMachine(Machine):
         r = rng.random()
         n = len(self.rows)
         row = [self._cell(rng, t) for t in self.types]
+        if self.cols_known and len(self.cols) > 1 and rng.random() < c["p_fail"] * 0.6:
+            k = rng.randrange(len(self.cols))
+            if rng.random() < 0.5:
+                return {"op": "append_short", "row": row[:k]}           # too few values
+            lacking = {self.cols[i]: row[i] for i in range(len(self.cols)) if i != k}
+            return {"op": "append_lacking", "row": lacking}             # a column is missing
         if r < 0.35 or n == 0:
             if not self.cols_known:
                 return {"op": "append_dict", "row": dict(zip(self.cols, row)), "extra": None}
@@ -361,6 +367,22 @@ class HelpersMachine(Machine):
                             signature=f"C20/table/{'keyed' if self.keyed else 'list'}/{what}")
         if len(t) != len(m):
             bad("len", len(t), len(m))
+        # iteration: a plain loop, a loop restarted, and two overlapping loops
+        want_recs = list(m.values()) if self.keyed else list(m)
+        first = list(t)
+        again = [rec for rec in t]
+        if len(first) != len(want_recs) or len(again) != len(want_recs) or any(
+                not self._same_record(r, w) for r, w in zip(first, want_recs)):
+            bad("iteration", first, want_recs)
+        if 0 < len(want_recs) <= 6:
+            pairs = sum(1 for a in t for b in t)
+            zipped = list(zip(t, t))
+            if pairs != len(want_recs) ** 2:
+                bad("nested_iteration", pairs, len(want_recs) ** 2)
+            if len(zipped) != len(want_recs) or any(
+                    not self._same_record(a, w) or not self._same_record(b, w)
+                    for (a, b), w in zip(zipped, want_recs)):
+                bad("zip_iteration", len(zipped), len(want_recs))
         if t.shape() != (len(m), len(self.fields)):
             bad("shape", t.shape(), (len(m), len(self.fields)))
         if self.keyed:
@@ -450,6 +472,23 @@ class HelpersMachine(Machine):
                 self.cols_known = True
             self.rows.append([self._cast(op["row"][c], t) for c, t in zip(self.cols, self.types)])
             return "ok", None
+        if k in ("append_short", "append_lacking"):
+            # a malformed row must be refused and must not leave a trace: the next good row
+            # has to line up with the earlier ones
+            if not self.cols_known:
+                return "skip", None
+            row = op["row"]
+            if (k == "append_short" and len(row) >= len(self.cols)) or \
+                    (k == "append_lacking" and set(self.cols) <= set(row)):
+                return "skip", None
+            try:
+                rc.append(list(row) if k == "append_short" else dict(row))
+            except Exception as e:
+                self.failed_ops += 1
+                self.stats.fault("failing_" + k, True)
+                return "raised:" + type(e).__name__, None
+            raise Violation("malformed_row_accepted", {"op": k, "row": row},
+                            signature=f"C20/rows/{k}/missing_error")
         if k == "sort":
             if op["col"] not in self.cols or not self.cols_known:
                 return "skip", None
